@@ -72,6 +72,25 @@ static __thread double g_tl = DBL_MAX;
 static __thread int tl_timeouts = 0;
 static __thread int tl_nonnull = 0;
 static __thread int input_modified = 0;
+/* parameter structs are inputs as well: their bytes are compared before and after the library call (bit 4 of the flag) */
+static __thread unsigned char params_saved[512];
+static __thread const void* params_ptr = NULL;
+static __thread size_t params_len = 0;
+static void params_guard_begin(const void* p, size_t n)
+{
+  if (n <= sizeof(params_saved))
+  {
+    memcpy(params_saved, p, n);
+    params_ptr = p;
+    params_len = n;
+  }
+}
+static void params_guard_end(void)
+{
+  if (params_ptr && memcmp(params_saved, params_ptr, params_len))
+    input_modified |= 4;
+  params_ptr = NULL;
+}
 
 static void note_rc(CMR_ERROR rc, int n, ...)
 {
@@ -618,10 +637,13 @@ static void do_tu(CMR* cmr)
     resnap_chrmat(M);
   }
   CMR_TU_PARAMS params;
+  memset(&params, 0, sizeof(params));   /* padding bytes defined: the struct is compared bytewise */
   tu_params_from_cfg(&params);
   unsigned char flag = 2;
   CMR_SUBMAT* sub = NULL;
+  params_guard_begin(&params, sizeof(params));
   CMR_ERROR rc = CMRtuTest(cmr, M, (bool*) &flag, NULL, cfg[15] ? &sub : NULL, &params, NULL, TL);
+  params_guard_end();
   note_rc(rc, 1, sub);
   rec_begin();
   o_cfg();
@@ -662,10 +684,13 @@ static void do_regular(CMR* cmr)
   read_cfg();
   CMR_CHRMAT* M = read_chrmat(cmr);
   CMR_REGULAR_PARAMS params;
+  memset(&params, 0, sizeof(params));   /* padding bytes defined: the struct is compared bytewise */
   CMRregularParamsInit(&params);
   seymour_params_from_cfg(&params.seymour);
   unsigned char flag = 2;
+  params_guard_begin(&params, sizeof(params));
   CMR_ERROR rc = CMRregularTest(cmr, M, (bool*) &flag, NULL, NULL, &params, NULL, TL);
+  params_guard_end();
   note_rc(rc, 0);
   rec_begin();
   o_cfg();
@@ -883,12 +908,15 @@ static void do_balanced(CMR* cmr)
   long long alg = nx(), sp = nx(), ws = nx();
   CMR_CHRMAT* M = read_chrmat(cmr);
   CMR_BALANCED_PARAMS params;
+  memset(&params, 0, sizeof(params));   /* padding bytes defined: the struct is compared bytewise */
   CMRbalancedParamsInit(&params);
   params.algorithm = (CMR_BALANCED_ALGORITHM) alg;
   params.seriesParallel = sp;
   unsigned char flag = 2;
   CMR_SUBMAT* sub = NULL;
+  params_guard_begin(&params, sizeof(params));
   CMR_ERROR rc = CMRbalancedTest(cmr, M, (bool*) &flag, ws ? &sub : NULL, &params, NULL, TL);
+  params_guard_end();
   note_rc(rc, 1, sub);
   rec_begin();
   oi(alg); oi(sp); oi(ws);
